@@ -117,6 +117,11 @@ func TestC12(t *testing.T) {
 	// and validates the canary: from the removal on the pod is an unrelated pod
 	scs = append(scs, scOpt{name: "S6-quarantined-canary-pod", nodes: []string{"n1", "n2"}, eds: []w.EDSOpt{w.WithCanary("1", 0, 0, "manual")},
 		first: []w.Event{evb("setTemplate", edsKey, "B")}, alpha: &w.Alpha{PodDev: []string{"quarantine"}, Kubectl: []string{"canary-validate"}}, budget: 2})
+	// a pod template whose own metadata names another namespace (a manifest of elsewhere/foo re-applied in ns): the pods
+	// belong in the ExtendedDaemonSet's namespace, and the namesake over there must not see any of them
+	scs = append(scs, scOpt{name: "S6-template-names-another-namespace", nodes: []string{"n1"}, tpl0: "A+metans", tpls: []string{"A+metans", "B+metans"},
+		extra: []client.Object{w.NewEDS("elsewhere", "foo", "A", w.WithFrequency(0))}, raw: true,
+		first: nil, alpha: &w.Alpha{Templates: []string{"B+metans"}}, budget: b})
 	runWorld(t, run, scs, []func(*w.MonCtx){w.MonC12}, 0)
 	requireAntecedents(run, "C12/write")
 	exit(run.Finish("BFS over all interleavings of the reconciles of two ExtendedDaemonSets (same name in two namespaces / two names in one namespace / canary + namesake / DaemonSet migration with overlapping selectors) with template changes and validation as deviations; every write is checked against the ownership reference; non-trivial = scenarios"))
